@@ -8,6 +8,11 @@
 (* iteration, the relational definition (SeqSemantics!Join, ZipComb,       *)
 (* concatenation) and compares bags.                                       *)
 (*   case {id, op, variant, ml, mr, left, right, res}                      *)
+(*   case2 {.., res, single}: a run over several iterations whose result   *)
+(*   was wrong, together with the results of its iterations run ALONE on   *)
+(*   the real operator (single[i]).  When every iteration is right on its  *)
+(*   own, the long run is wrong because of what an earlier iteration left  *)
+(*   behind: C05 "carry nothing over into the next iteration".             *)
 (***************************************************************************)
 EXTENDS Naturals, Integers, Sequences, Json, IOUtils, TLC, FiniteSets, SeqSemantics
 
@@ -61,11 +66,22 @@ Case(e) ==
                                    extra |-> [op |-> e.op, variant |-> e.variant, got |-> e.res]])>>) ELSE TRUE)
      /\ nviol' = nviol + (IF missing # {} THEN 1 ELSE 0) + (IF extra # {} THEN 1 ELSE 0) + (IF carried THEN 1 ELSE 0)
 
+Case2(e) ==
+  LET wrong   == BagOf(e.res) # BagOf(Expected(e))
+      aloneOK == \A i \in 1..Len(e.left) : BagOf(e.single[i]) = BagOf(OneIter(e, i))
+  IN IF wrong /\ aloneOK
+     THEN /\ PrintT(<<"VIOL", ToJson([prop |-> "C05", kind |-> "carry_over", job |-> e.id, index |-> l,
+                                       extra |-> [op |-> e.op, variant |-> e.variant, got |-> e.res,
+                                                  expected |-> Expected(e), alone |-> e.single]])>>)
+          /\ nviol' = nviol + 1
+     ELSE UNCHANGED nviol
+
 Step ==
   /\ l <= Len(Rec)
   /\ l' = l + 1
   /\ LET e == Rec[l] IN
        CASE e.ev = "case" -> Case(e)
+         [] e.ev = "case2" -> Case2(e)
          [] OTHER         -> UNCHANGED nviol
 
 Spec == Init /\ [][Step]_vars
